@@ -105,7 +105,11 @@ func FromStatus(st *status.Status) *ConduitError {
 		// the error still round-trips. If a client and server ever disagree on a
 		// registered reason's category, the local mapping wins by design.
 		code, ok := LookupCode(info.GetReason())
-		if !ok {
+		if !ok || code.reason == CodeUnknown.reason {
+			// internal.unknown is also the reason WithUnknownReason gives an
+			// un-coded error together with the category chosen at the boundary;
+			// that category only travels in the wire status' code, so keep it
+			// (for a plain CodeUnknown both agree).
 			code = Code{reason: info.GetReason(), grpcCode: st.Code()}
 		}
 
